@@ -102,6 +102,13 @@ func (v *fnVC) instr(b *ssa.BasicBlock, in ssa.Instruction, st *State) {
 	case *ssa.IndexAddr:
 		v.indexAddr(i, st)
 	case *ssa.Index:
+		if bt, ok := i.X.Type().Underlying().(*types.Basic); ok && bt.Info()&types.IsString != 0 {
+			x := v.val(i.X)
+			idx := intTo64(v.val(i.Index))
+			v.safetyOb("index-out-of-range", i.Pos(), mk(sapp("and", sapp("bvsle", bvLit(0, 64), idx.S), sapp("bvslt", idx.S, sapp("slen", x.S))), sBool))
+			v.bind(i, mk(sapp("sat", x.S, idx.S), sU8))
+			return
+		}
 		v.unsupported("index of array value at %s", v.pos(i.Pos()))
 		v.setVal(i, e.freshConst("idx", e.sortOf(i.Type())))
 	case *ssa.Lookup:
@@ -191,6 +198,12 @@ func (v *fnVC) instr(b *ssa.BasicBlock, in ssa.Instruction, st *State) {
 	case *ssa.Call:
 		v.call(i, st)
 	case *ssa.Panic:
+		if strings.HasPrefix(b.Comment, "rangefunc.") || b.Comment == "yield-invalid" {
+			// go/ssa's range-over-func protocol checks: unreachable for iterators that obey the protocol
+			v.e.uses["range-over-func protocol: iterator functions never call yield after it returned false, nor re-enter it (go/ssa's synthetic protocol panics are unreachable)"] = true
+			v.e.assume(tImp(R, tFalse()))
+			return
+		}
 		v.safetyOb("explicit-panic", i.Pos(), tFalse())
 	case *ssa.Return:
 		v.ret(i, st)
@@ -612,8 +625,8 @@ func (v *fnVC) convert(i *ssa.Convert, st *State) {
 				// n >= 0  ==>  n/10 - n/2^50 - 1 <= r <= n/10 + n/2^50 + 1
 				lo := sapp("bvsub", sapp("bvsub", sapp("bvsdiv", n.S, bvLit(10, 64)), sapp("bvashr", n.S, bvLit(50, 64))), bvLit(1, 64))
 				hi := sapp("bvadd", sapp("bvadd", sapp("bvsdiv", n.S, bvLit(10, 64)), sapp("bvashr", n.S, bvLit(50, 64))), bvLit(1, 64))
-				e.assume(mk(sapp("=>", sapp("bvsge", n.S, bvLit(0, 64)), sapp("and", sapp("bvsle", lo, r.S), sapp("bvsle", r.S, hi))), sBool))
-				e.uses["float64(n)*0.1 converted back to int64 lies in [n/10 - n/2^50 - 1, n/10 + n/2^50 + 1] for n >= 0 (machine float treated as a real interval)"] = true
+				e.assume(mk(sapp("=>", sapp("bvsge", n.S, bvLit(0, 64)), sapp("and", sapp("bvsle", lo, r.S), sapp("bvsle", r.S, hi), sapp("bvsge", r.S, bvLit(0, 64)))), sBool))
+				e.uses["float64(n)*0.1 converted back to int64 is non-negative and lies in [n/10 - n/2^50 - 1, n/10 + n/2^50 + 1] for n >= 0 (machine float treated as a real interval)"] = true
 			}
 		}
 	case x.Sort.Kind == KStr && to.Kind == KSlice:
